@@ -314,6 +314,19 @@ func (c *Conn) readCommand(dec *imapwire.Decoder) error {
 	return c.writeStatusResp(tag, resp)
 }
 
+// readLine reads a single line sent by the client outside of a command, e.g.
+// an AUTHENTICATE response or DONE. If the line is too long to fit in the read
+// buffer, the whole line is consumed (so that the rest of it doesn't get
+// interpreted as a command) and tooLong is set to true.
+func (c *Conn) readLine() (line []byte, tooLong bool, err error) {
+	line, isPrefix, err := c.br.ReadLine()
+	for isPrefix && err == nil {
+		tooLong = true
+		_, isPrefix, err = c.br.ReadLine()
+	}
+	return line, tooLong, err
+}
+
 func (c *Conn) handleNoop(dec *imapwire.Decoder) error {
 	if !dec.ExpectCRLF() {
 		return dec.Err()
